@@ -12,7 +12,7 @@ import LdkModel.Model.ChainView
          lout <oid> <parent tx>                            output whose claim is time-locked -> ok
          initclaim <oid> <creation> | initlocked <oid>     bookkeeping present before the first op -> ok
          pre <p>                                           provide_payment_preimage          -> as block/conf/…
-         cv   -> claims=<oid.creation,…|-> haw=<tx.height,…|-> pre=<p,…|-> lk=<oid,…|->   (sorted) -/
+         cv [label]   -> claims=<oid.creation,…|-> haw=<tx.height,…|-> pre=<p,…|-> lk=<oid,…|->   (sorted) -/
 namespace Ldk.Driver
 open Ldk Ldk.ChainView
 
@@ -69,7 +69,7 @@ def c11Step (s : C11State) (ws : List String) : C11State × String :=
   | ["initlocked", o] => ({ s with cs := { s.cs with locked := s.cs.locked ++ [nat! o] } }, "ok")
   | ["initclaim", o, c] => ({ s with cs := { s.cs with claims := s.cs.claims ++ [{ out := nat! o, creation := nat! c }] } }, "ok")
   | ["pre", p] => goC (.preimage (nat! p))
-  | ["cv"] => (s, showC s.cs)
+  | "cv" :: _ => (s, showC s.cs)
   | "block" :: h :: ids => go (.blockConnected (nat! h) (ids.map nat!))
   | "conf" :: h :: ids => go (.txsConfirmed (nat! h) (ids.map nat!))
   | ["best", h] => go (.bestBlock (nat! h))
